@@ -105,3 +105,7 @@ Ltac wp_let x H :=
   lazymatch goal with
   | |- wp (let y := _ in _) _ _ _ => apply wp_let; intros x H; cbv beta
   end.
+
+Lemma wp_and {A} (m : M A) s ev (Q1 Q2 : A -> sock -> list event -> Prop) :
+  wp m s ev Q1 -> wp m s ev Q2 -> wp m s ev (fun a s' ev' => Q1 a s' ev' /\ Q2 a s' ev').
+Proof. unfold wp. destruct (m s ev) as [[[a s'] ev']|]; auto. Qed.
